@@ -86,9 +86,14 @@ TypedValue consume_numeric_typed_value(
     // ユーザー空間アドレス範囲: 0x0000000100000000 〜 0x00007fffffffffff
     // (macOS/Linux典型的な範囲) カーネル空間アドレス: 0xffff800000000000
     // 以上（負の整数の小さな値を除外）
+    // タグ付きメタデータポインタは「最上位ビット | ユーザー空間アドレス」の形をしている。
+    // 0xffff800000000000 以上という条件は -1 や -8 のような小さな負の整数にも当てはまり、
+    // それらをポインタとして逆参照してしまう（SIGSEGV）ため、タグ付きの範囲だけを見る。
+    uint64_t untagged_val = unsigned_val & ~(1ULL << 63);
     if ((unsigned_val >= 0x0000000100000000ULL &&
          unsigned_val <= 0x00007fffffffFFFFULL) ||
-        (unsigned_val >= 0xffff800000000000ULL)) {
+        ((unsigned_val >> 63) != 0 && untagged_val >= 0x0000000100000000ULL &&
+         untagged_val <= 0x00007fffffffFFFFULL)) {
         is_pointer_value = true;
     }
 
